@@ -742,13 +742,44 @@ func NormalizeProjectName(s string) string {
 	return strings.TrimLeft(s, "_-")
 }
 
+// userDefinedKeys lists the mappings whose keys are chosen by the user (names of resources, of variables, of
+// labels, of driver options...): there, a key starting with `x-` is a key like any other, not an extension
 var userDefinedKeys = []tree.Path{
 	"services",
 	"services.*.depends_on",
+	"services.*.networks",
+	"services.*.networks.*.driver_opts",
+	"services.*.environment",
+	"services.*.labels",
+	"services.*.annotations",
+	"services.*.sysctls",
+	"services.*.extra_hosts",
+	"services.*.storage_opt",
+	"services.*.logging.options",
+	"services.*.build.args",
+	"services.*.build.labels",
+	"services.*.build.additional_contexts",
+	"services.*.build.extra_hosts",
+	"services.*.build.ssh",
+	"services.*.deploy.labels",
+	"services.*.deploy.resources.reservations.devices.*.options",
+	"services.*.gpus.*.options",
+	"services.*.develop.watch.*.exec.environment",
+	"services.*.post_start.*.environment",
+	"services.*.pre_stop.*.environment",
 	"volumes",
+	"volumes.*.labels",
+	"volumes.*.driver_opts",
 	"networks",
+	"networks.*.labels",
+	"networks.*.driver_opts",
+	"networks.*.ipam.options",
+	"networks.*.ipam.config.*.aux_addresses",
 	"secrets",
+	"secrets.*.labels",
+	"secrets.*.driver_opts",
 	"configs",
+	"configs.*.labels",
 }
 
 func processExtensions(dict map[string]any, p tree.Path, extensions map[string]any) (map[string]interface{}, error) {
@@ -776,7 +807,7 @@ func processExtensions(dict map[string]any, p tree.Path, extensions map[string]a
 		case []interface{}:
 			for i, e := range v {
 				if m, ok := e.(map[string]interface{}); ok {
-					v[i], err = processExtensions(m, p.Next(strconv.Itoa(i)), extensions)
+					v[i], err = processExtensions(m, p.Next(key).Next(strconv.Itoa(i)), extensions)
 					if err != nil {
 						return nil, err
 					}
